@@ -237,7 +237,7 @@ func TestC20(t *testing.T) {
 		"(sampled offsets for the long logs in the quick tier): exactly the complete entries before the cut, then errors forever; (4) write error at the k-th underlying Write for every k; " +
 		"(5) unencodable entry (v1 id > 255, message not in the dialect, nil message) at every position: error, file length unchanged, final file reads back as the accepted entries. " +
 		"distinct = distinct log images")
-	rep.RuleAdd("Also: underlying writers with a Flush method whose write error is not sticky; six logs written concurrently through slow writers with unencodable entries mixed in.")
+	rep.RuleAdd("Also: underlying writers with a Flush method whose write error is not sticky; six logs written concurrently through slow writers with unencodable entries mixed in. A log of 6000+ entries read back from a source serving large blocks.")
 	rep.Assume("reference log image = BE64(unix microseconds) || reference frame serialization")
 	seed := vh.Seed()
 	all := shippedOrViolation(rep, t)
